@@ -267,6 +267,9 @@ def layout_rewrite(ri: int, pos: int) -> None:
     hlib.enter(locals())
     pi = hlib.PARAM["program"]
     ri = hlib.concrete(ri, 0, 17)
+    with hlib.native():
+        a0 = parse_outcome(PROGRAMS[pi])
+    assert a0[0] == 'ok', "base program does not parse: %r" % (a0,)
     hlib.assume(NPOS[(pi, ri)] > 0)
     bad = None
     with hlib.native():
